@@ -25,7 +25,7 @@ func c07Judge(c *Ctx, cs *Case) {
 		}
 	}
 	if cs.Mode == "cli" {
-		o := RunCLI(CLIOpts{Bin: c.Bin, Src: cs.Src, Stdin: cs.Stdin, Dir: c.Scratch, Timeout: 6 * time.Second})
+		o := RunCLI(CLIOpts{Bin: c.Bin, Src: cs.Src, Stdin: cs.Stdin, Dir: c.Scratch, Timeout: 20 * time.Second})
 		c.Count("cli_runs", 1)
 		if o.TimedOut {
 			c.Count("cli_watchdog_skips", 1)
@@ -43,7 +43,11 @@ func c07Judge(c *Ctx, cs *Case) {
 		c.Nontrivial("cli|" + cs.Src)
 		return
 	}
-	o := RunLib(cs.Src, RunOpts{MaxSteps: 200000, Stdin: cs.Stdin})
+	budget := int64(200000)
+	if strings.HasPrefix(cs.Gen, "stress-") {
+		budget = 60000000
+	}
+	o := RunLib(cs.Src, RunOpts{MaxSteps: budget, Stdin: cs.Stdin})
 	if o.Panic != "" {
 		CheckAbnormal(c, o)
 		return
@@ -252,6 +256,9 @@ func c07Run(c *Ctx) {
 		{"call-chain", Fun("f", "", " "+Ret("f")+" ") + "\n" + Print("f"+strings.Repeat("()", depth))},
 		{"index-chain", Var("a", "[0]") + "\na[0] = a;\n" + Print("a"+strings.Repeat("[0]", depth)+" == a")},
 		{"if-nest", strings.Repeat(K["if"]+" ("+True()+") ", depth) + Print("1")},
+		{"recursion-40000", Fun("d", "n", " "+If("n == 0", Ret("0"))+" "+Ret("1 + d(n - 1)")+" ") + "\n" + Print("d(40000)")},
+		{"recursion-40000-fault-at-bottom", Fun("d", "n", " "+If("n == 0", Ret("nil.k"))+" "+Ret("1 + d(n - 1)")+" ") + "\n" + Print("d(40000)")},
+		{"while-600000-continues", Var("i", "0") + "\n" + Var("hits", "0") + "\n" + While("i < 1400000", "{ i = i + 1; "+If("i % 7 != 0", Continue())+" hits = hits + 1; }") + "\n" + Print("hits")},
 		{"recursion-2000", Fun("d", "n", " "+If("n == 0", Ret("0"))+" "+Ret("1 + d(n - 1)")+" ") + "\n" + Print("d(2000)")},
 		{"array-grow", Var("a", "[]") + "\n" + For(Var("i", "0"), "i < "+fmt.Sprint(c.N(20000, 100000)), "i = i + 1", "{ a = "+BI("append", "a", "i")+"; }") + "\n" + Print(BI("len", "a"))},
 		{"string-grow", Var("s", `"x"`) + "\n" + For(Var("i", "0"), "i < 18", "i = i + 1", "{ s = s + s; }") + "\n" + Print(`(s + "y") == s`)},
